@@ -70,7 +70,13 @@ fn run_case(
                     replay["tags"] = json!(tags);
                     rep.violation(
                         &sig,
-                        &format!("{b} generator (variant {}) panicked at {location}: {}", var.name, msg.lines().next().unwrap_or("")),
+                        &format!(
+                            "{b} generator (variant {}, flags {:?}) panicked at {location}: {} [source line: {}]",
+                            var.name,
+                            b.cli_args(var),
+                            msg.lines().next().unwrap_or(""),
+                            genrun::panic_source_line(b, location).unwrap_or_default()
+                        ),
                         replay,
                     );
                 }
@@ -182,6 +188,10 @@ fn main() {
     for (name, wit) in witgen::boundary_corpus() {
         inputs.push((format!("boundary:{name}"), witgen::World { wit, world: "w".into(), tags: BTreeSet::new(), docs: vec![] }));
     }
+    // directed worlds: one minimal document per known panic, run at every seed with every variant
+    for d in genrun::directed_worlds() {
+        inputs.push((format!("directed:{}", d.name), witgen::World { wit: d.wit.to_string(), world: "w".into(), tags: BTreeSet::new(), docs: vec![] }));
+    }
     let n_random = args.u64("worlds", if thorough { 6000 } else { 420 }) as usize;
     let mut discarded = 0usize;
     let mut gave_up = 0usize;
@@ -193,11 +203,15 @@ fn main() {
         if !mine {
             continue;
         }
-        let Ok((resolve, world)) = witgen::parse(&w.wit) else { continue };
+        let Ok((resolve, world)) = witgen::parse(&w.wit) else {
+            rep.inconclusive(&format!("fixed input {label} does not parse"));
+            continue;
+        };
         if witgen::check_encodable(&resolve, world).is_err() {
-            rep.count("boundary_not_encodable");
+            rep.inconclusive(&format!("fixed input {label} is not a valid (encodable) world"));
             continue;
         }
+        rep.count("fixed_inputs");
         let tags = workload::all_tags(&w, &resolve, world);
         rep.distinct(&genrun::world_shape(&resolve, world, &tags));
         let desc = json!({"wit": w.wit, "class": label});
